@@ -80,6 +80,10 @@ CHECKS.update({
    text="Real agent.Agent lifecycle on the simulated clock: sequences of Start, Start-again, Stop, Wait (in separate tasks), forced updates, pool failure at connect or at the k-th keep-alive, intervals 1 s to 10 min: Start while running returns ErrAlreadyStarted and sends nothing, exactly one keep-alive per interval while running and none when stopped, Stop ends the loop and Wait returns, a failed Start leaves nothing running, the agent can be started again after Stop and after the loop died.",
    note="The command-line bound on the update interval (agent.go) is checked by the L2 scenario when built; here the interval is set directly on the Agent. Stop is only called while the model says the loop runs (Stop blocks by design otherwise).",
    technique=TECH+"lifecycle call sequences on a simulated clock; keep-alive cadence counted per simulated interval", design="4 C20"),
+ "C17": dict(level="exploration",
+   text="1-40 messages (requests, replies, tiny, > 64 KiB, unicode, nested) per writer are written through each codec to a simulated byte stream whose bytes the scheduler delivers in seeded chunks (one byte at a time, splits inside a message, several messages per read): stream codec (IOCodec), gorilla and gobwas WebSocket codecs through a real net/http server + real dialers, HTTP codec through real http.Transport/http.Server. The reader must obtain the same messages once, intact, in per-writer order. For the shipped codec (gorilla) 1-4 concurrent writers per side are used and a tenth of the runs is repeated in a -race build with masked scheduler hand-offs, so that unsynchronised writers are reported.",
+   note="The connection is a reliable ordered byte stream (no loss/duplication, as TCP). The simulator never parks a goroutine inside Write (codecs hold their write lock there), so byte interleaving of concurrent writers can only show as a race report or as gorilla's own concurrent-write panic. Step budget exhaustion with byte-at-a-time chunking is counted as inconclusive, not as loss.",
+   technique=TECH+"byte-stream chunking schedules over real codecs, HTTP server and dialers; written-vs-read sequence oracle; race detector for concurrent writers", design="4 C17"),
 })
 
 PENDING = {}  # property -> reason it is not claimed at this commit
